@@ -157,6 +157,76 @@ pub fn run_ops(file: &[u8], ops: &str, full: bool) -> String {
     }
 }
 
+/// a reader that, once armed, fails exactly once: at the first `read` / `fill_buf` at or beyond
+/// byte offset `at` (a transient I/O error in the middle of playback)
+struct FailOnce { inner: Cursor<Vec<u8>>, at: u64, armed: std::rc::Rc<std::cell::Cell<bool>>, fired: std::rc::Rc<std::cell::Cell<bool>> }
+impl FailOnce {
+    fn trip(&mut self) -> std::io::Result<()> {
+        if self.armed.get() && !self.fired.get() && self.inner.position() >= self.at {
+            self.fired.set(true);
+            return Err(std::io::Error::new(std::io::ErrorKind::TimedOut, "injected transient fault"));
+        }
+        Ok(())
+    }
+}
+impl std::io::Read for FailOnce {
+    fn read(&mut self, b: &mut [u8]) -> std::io::Result<usize> { self.trip()?; self.inner.read(b) }
+}
+impl std::io::BufRead for FailOnce {
+    fn fill_buf(&mut self) -> std::io::Result<&[u8]> { self.trip()?; self.inner.fill_buf() }
+    fn consume(&mut self, a: usize) { self.inner.consume(a) }
+}
+impl std::io::Seek for FailOnce {
+    fn seek(&mut self, p: std::io::SeekFrom) -> std::io::Result<u64> { self.inner.seek(p) }
+}
+
+/// `run_ops` with one transient fault at offset `at` after the decoder is open; a call that fails
+/// with the injected error is repeated and does not count: the successful calls must deliver what
+/// they deliver without the fault.  Returns (outputs, did the fault fire inside a call?)
+pub fn run_ops_faulty(file: &[u8], ops: &str, at: u64) -> (String, bool) {
+    let armed = std::rc::Rc::new(std::cell::Cell::new(false));
+    let fired = std::rc::Rc::new(std::cell::Cell::new(false));
+    let (a2, f2) = (armed.clone(), fired.clone());
+    let r = catch(move || {
+        let mut d = match WebPDecoder::new(FailOnce { inner: Cursor::new(file.to_vec()), at, armed: a2.clone(), fired: f2 }) {
+            Ok(d) => d,
+            Err(e) => return format!("OPENERR:{e:?}"),
+        };
+        a2.set(true);
+        let n = d.output_buffer_size().unwrap();
+        let mut outs = Vec::new();
+        let mut buf = vec![0xA5u8; n];
+        for op in ops.chars() {
+            for attempt in 0..2 {
+                let res = match op {
+                    'f' => {
+                        let before = buf.clone();
+                        match d.read_frame(&mut buf) {
+                            Ok(dur) => Ok(format!("frame:{dur}:{}/{}", fnv_bytes(FNV_INIT, &buf), buf.len())),
+                            Err(image_webp::DecodingError::NoMoreFrames) => Ok(if buf == before { "NoMoreFrames".to_string() } else { "NoMoreFrames(buffer-modified)".to_string() }),
+                            Err(e) => Err(format!("error:{e:?}")),
+                        }
+                    }
+                    'r' => { d.reset_animation(); Ok("ok".to_string()) }
+                    _ => match d.read_image(&mut buf) {
+                        Ok(()) => Ok(format!("image:{}/{}", fnv_bytes(FNV_INIT, &buf), buf.len())),
+                        Err(e) => Err(format!("error:{e:?}")),
+                    },
+                };
+                match res {
+                    Ok(o) => { outs.push(o); break; }
+                    Err(e) => if attempt == 1 || !e.contains("injected") { outs.push(e); break; },
+                }
+            }
+        }
+        if outs.is_empty() { "-".to_string() } else { outs.join(" ") }
+    });
+    match r {
+        Ok(s) => (s, fired.get()),
+        Err(m) => (format!("PANIC {m}"), fired.get()),
+    }
+}
+
 pub fn run(o: &Opts) -> Report {
     let mut rep = Report::new("C06");
     let mut drv = Drv::spawn(&o.drv);
@@ -218,6 +288,33 @@ pub fn run(o: &Opts) -> Report {
             rep.sample(json!({"animation": {"canvas": [g.spec.cw, g.spec.ch], "alpha_flag": g.spec.alpha_flag, "bg_file_order": hex(&g.spec.bg_file_order), "frames": g.shape(), "file_bytes": g.file.len()}}));
         }
         file_case(&mut drv, &mut rep, &g, &ops, "tie2: read_frame = Anim.readFrame (C06.read_frame_fold: k-th frame = canvas fold; background in B,G,R,A order; duration of that frame)", true);
+        // the k-th SUCCESSFUL read_frame: one transient I/O fault inside frame k (its header, its
+        // parameters, the start / middle / end of its payload), the failed call repeated
+        if g.spec.frames.len() >= 2 {
+            let clean = run_ops(&g.file, &ops, false);
+            let mut offs: Vec<u64> = Vec::new();
+            let mut p = 12usize;
+            while p + 8 <= g.file.len() {
+                let len = u32::from_le_bytes([g.file[p + 4], g.file[p + 5], g.file[p + 6], g.file[p + 7]]) as usize;
+                if &g.file[p..p + 4] == b"ANMF" {
+                    for d in [0usize, 8, 8 + 16, 8 + 16 + 8, 8 + 16 + (len.saturating_sub(16)) / 2, 8 + len.saturating_sub(1)] { offs.push((p + d) as u64); }
+                }
+                p += 8 + len + (len & 1);
+            }
+            for k in 0..4 {
+                if offs.is_empty() { break; }
+                let at = if k == 0 { offs[(i as usize) % offs.len()] } else { *rng.pick(&offs) };
+                let (got, fired) = run_ops_faulty(&g.file, &ops, at);
+                let line = format!("animfault at={at} {} {}", hex(&g.file), ops);
+                rep.case(&line, true);
+                rep.hit(if fired { "file_transient_fault_fired" } else { "file_transient_fault_not_reached" });
+                if got != clean {
+                    let (gi, ci): (Vec<&str>, Vec<&str>) = (got.split(' ').collect(), clean.split(' ').collect());
+                    let j = gi.iter().zip(ci.iter()).position(|(a, b)| a != b).unwrap_or(gi.len().min(ci.len()));
+                    rep.disagree(Disagreement { case: line, got: gi.get(j).map(|s| short(s)).unwrap_or_default(), expected: ci.get(j).map(|s| short(s)).unwrap_or_default(), class: "violation", obligation: "C06: the k-th SUCCESSFUL read_frame returns the k-th canvas of the fold (a read_frame that failed with a transient I/O error and is repeated does not count and leaves no trace); the fault-free run of the same file equals Anim.readFrame".into(), detail: format!("one injected fault at file offset {at}; first differing successful call: #{j}; animation {}", g.shape()) });
+                }
+            }
+        }
     }
 
     // (c) libwebp AnimDecoder oracle (validates the specification's compositing order)
